@@ -37,7 +37,8 @@ fn executors(i: usize) -> Vec<&'static str> {
     [vec!["exec"], vec![], vec!["X"], vec!["exec", "exec2"], vec!["EXEC"], vec!["exec", ""]][i].clone()
 }
 fn approvers(i: usize) -> Vec<&'static str> {
-    [vec!["approver"], vec![], vec!["X"], vec!["approver", "Approver2"]][i].clone()
+    // the last one: an account that is also an executor, and a repeated entry
+    [vec!["approver"], vec![], vec!["X"], vec!["approver", "Approver2"], vec!["approver", "exec", "approver"]][i].clone()
 }
 /// (rate, account)
 fn pair(i: usize, acct: &'static str) -> (Option<&'static str>, Option<&'static str>) {
@@ -60,7 +61,7 @@ fn pair(i: usize, acct: &'static str) -> (Option<&'static str>, Option<&'static 
 fn attrs(i: usize) -> Vec<&'static str> {
     [vec![], vec!["kyc"]][i].clone()
 }
-const DIMS: [usize; 10] = [2, 2, 2, 3, 6, 4, 13, 13, 2, 2];
+const DIMS: [usize; 10] = [2, 2, 2, 3, 6, 5, 13, 13, 2, 2];
 
 impl Shape {
     fn baseline(p: u128, inc: u128) -> Shape {
